@@ -6,18 +6,26 @@ PROPS = [json.loads(l)["id"] for l in open(os.path.join(ROOT, "properties.jsonl"
 
 CLAIMED = {
  "C01": dict(
-   text="Machine-checked Coq theorem: the ZIP64 part of the central record the writer emits is exactly what the reader's "
-        "extra-field decoding needs to recover the three 64-bit values from the clamped 32-bit fields, for all values "
-        "< 2^64 incl. exactly 0xFFFFFFFF (the D9 boundary).  The full round-trip theorem (open (finish ops) = spec "
-        "entries) is not yet proved; it is carried by the correspondence: a statement-by-statement Gallina model of "
-        "ZipWriter (over a plan-driven sink, compressors as an oracle supplied by the codec libraries) reproduces the "
-        "crate's archive BYTE FOR BYTE on random programs (all methods x levels, name/timestamp/permission/comment "
-        "shapes, large_file, directories, symlinks, split writes, short-writing sinks), for finish() and for drop; the "
-        "reader model then reads those bytes like the crate does; the oracle checks that every re-read entry equals what "
-        "was written and that drop bytes = finish bytes.",
-   note="Trusted: Coq kernel, extraction+driver, harness, codec libraries as enc oracle (dec(enc x)=x checked by CPython for deflate/bzip2 and by the crate's reader for zstd). PARTIAL: whole-archive round-trip theorem pending.",
-   technique="Coq proof (writer/reader ZIP64 field agreement) + byte-exact writer-model correspondence and re-read oracle",
-   design="8 (C01)"),
+   text="Machine-checked Coq theorems over the writer and reader models.  RECORD level: every central directory record the "
+        "writer can emit (any method code, CRC, attributes, 64-bit sizes/offset with or without ZIP64 block, any name <= "
+        "65535 bytes, any validated user extra data), placed between arbitrary bytes, is decoded by the reader's "
+        "parse_central -- fixed fields, name, extra-field walk incl. ZIP64 block and skipped user records -- to exactly the "
+        "written values, and a Rust-string name comes back as the same string.  DIRECTORY level: finish() on a well-behaved "
+        "sink returns  front ++ directory ++ end records  and the reader's open on exactly these bytes (backward end-record "
+        "search, locator/ZIP64 decoding, directory walk) lists one entry per writer record, in order, offset 0, same comment.  "
+        "END TO END for a stored entry: for EVERY name, Stored options (any permissions/time), EVERY content <= 2^32-1 bytes, "
+        "every compressor and 32-bit checksum function:  start_file; write_all; finish  succeed and the reader opens the "
+        "result with one entry whose reader DENOTES the content, so every completed read under every schedule of buffer "
+        "sizes returns exactly the content (C09 lift), with the written name, method, sizes, CRC.  The reader's blind spot "
+        "is an explicit hypothesis and a recorded known finding (D22: bytes in front of the end record that look like a "
+        "ZIP64 locator), with a model witness.  Compressed and encrypted entries, k-entry programs, drop vs finish, and the "
+        "tie of both models to the crate are carried by the correspondence: the writer model reproduces the crate's archive "
+        "BYTE FOR BYTE on 437 random programs (all methods x levels, name/timestamp/permission/comment shapes, large_file, "
+        "directories, symlinks, split writes, short-writing sinks), the reader model reads those bytes like the crate, and "
+        "the oracle checks every re-read entry against what was written.",
+   note="Trusted: Coq kernel, extraction+driver, harness, codec libraries as enc oracle (dec(enc x)=x checked by CPython for deflate/bzip2 and by the crate's reader for zstd). PARTIAL: the end-to-end theorem is proved for one stored entry (its lemmas are stated over an arbitrary prefix of earlier entries; the k-entry induction is not written out); compressed/encrypted entries are outside the reader model's decoders. KNOWN FINDING D22 (known_findings.txt).",
+   technique="Coq proof (record codec round trip, directory round trip through open, end-to-end write-then-read for stored entries lifted to all read schedules) + byte-exact writer-model correspondence and re-read oracle",
+   design="8 (C01), 13"),
  "C02": dict(
    text="Machine-checked Coq theorems over the writer model: a name, archive comment, local extra data (incl. the 20-byte "
         "ZIP64 reservation) or central extra data (incl. the ZIP64 block) that does not fit its 16-bit length field is "
